@@ -13,6 +13,7 @@ ASSUMPTIONS = ["pyparsing 3.3.2 behaviour on the TOY grammar (modelled by a hand
 
 
 def cases(rng, tier):
+    yield from full_data_cases()
     ws = [0, 1, 0x0FFF, 0x1000, 0xC000, 0xCFFF, 0xD000, 0xD123, 0xFFFF, 0xF000, 0x8001, 0xBFFF]
     ws += [rng.randrange(65536) for _ in range(200)]
     yield Case("toy-enc", [f"toy.dec {w}" for w in ws] + [f"toy.enc {w >> 12} {w & 0xFFF}" for w in ws], None, {"words": ws})
@@ -25,6 +26,15 @@ def cases(rng, tier):
         yield c
     for _ in range(n):
         yield toyasmgen.gen_case(rng)
+
+
+def full_data_cases():
+    """a data segment that fills the memory EXACTLY (no instructions): must load, data from address 0 upward"""
+    vals = [(7 * k + 1) % 65536 for k in range(4096)]
+    text = ".data\nx: .word " + ", ".join(str(v) for v in vals) + "\n"
+    yield Case("toy-asm", ["toy.new", f"toy.asm {toyasmgen.hx(text)}", "toy.snap"], None, {"text": text, "abstract": ([], [("x", vals)]), "kind": "valid"})
+    text2 = ".data\na: .word " + ", ".join(str(v) for v in vals[:4000]) + "\nb: .word " + ", ".join(str(v) for v in vals[4000:]) + "\n.text\n"
+    yield Case("toy-asm", ["toy.new", f"toy.asm {toyasmgen.hx(text2)}", "toy.snap"], None, {"text": text2, "abstract": ([], [("a", vals[:4000]), ("b", vals[4000:])]), "kind": "valid"})
 
 
 def nontrivial(c):
